@@ -41,7 +41,7 @@ func genE2EBasic(g *Gen, tag string) *Plan {
 				if len(registered) == 0 {
 					ops = append(ops, ClientOp{GapMs: gap, Op: "publish", Topic: shortPool[g.Intn(len(shortPool))], QoS: uint8(g.Intn(4)), Payload: serialPayload(cp.Name+":", k, int(g.Range(0, 20)))})
 				} else {
-					ops = append(ops, ClientOp{GapMs: gap, Op: "publish", Topic: registered[g.Intn(len(registered))], QoS: uint8(g.Intn(4)), Retain: g.Bool(0.2), Payload: serialPayload(cp.Name+":", k, int(g.Range(0, 300)))})
+					ops = append(ops, ClientOp{GapMs: gap, Op: "publish", Topic: registered[g.Intn(len(registered))], QoS: uint8(g.Intn(4)), Retain: g.Bool(0.2), Payload: serialPayload(cp.Name+":", k, e2ePayloadLen(g))})
 				}
 			case 6:
 				ops = append(ops, ClientOp{GapMs: gap, Op: "ping"})
@@ -63,4 +63,13 @@ func genE2EBasic(g *Gen, tag string) *Plan {
 	}
 	p.Cfg.HorizonMs = total + 8000
 	return p
+}
+
+// e2ePayloadLen: mostly small; now and then at the length-form boundary, at the datagram limit and beyond
+// (what does not fit into a datagram must be refused by the client library, not sent)
+func e2ePayloadLen(g *Gen) int {
+	if g.Bool(0.06) {
+		return int([]int64{240, 247, 248, 249, 250, 251, 8170, 8183, 8184, 8185, 9000, 70000}[g.Intn(12)])
+	}
+	return int(g.Range(0, 300))
 }
